@@ -617,6 +617,28 @@ def backjump_program(rnd):
     return number(defs, main)
 
 
+def redef_marks_program(rnd):
+    """a program name defined twice, both bodies with labels and jumps of the SAME names, a caller that binds the
+    first definition in between; the second body is larger (more registers) than the first"""
+    def counting(step, extra, same):
+        top, out = ('m0', 'e0') if same else ('m0' if rnd.random() < 0.5 else 'n0', 'e0' if rnd.random() < 0.5 else 'f0')
+        b = [['assign', 'x%d' % (5 + j), ('num', j + 1)] for j in range(extra)]
+        b += [['label', top], ['if', 'a', 0, out], ['assign', 'a', ('dec', 'a', 1)], ['assign', 'r', ('inc', 'r', step)]]
+        if extra:
+            b.append(['assign', 'x5', ('inc', 'x5', 1)])
+        b += [['goto', top], ['label', out], ['assign', 'r', ('inc', 'r', extra)]]
+        return b
+    same = rnd.random() < 0.7
+    defs = [('f', ['a'], 'r', counting(1, 0, True)),
+            ('g', ['a'], 'r', [['assign', 'r', ('call', 'f', [('var', 'a')])]]),
+            ('f', ['a'], 'r', counting(2, rnd.randint(1, 3), same))]
+    main = [['assign', 'x1', ('call', 'g', [('num', rnd.randint(1, 3))])],
+            ['assign', 'x2', ('call', 'f', [('num', rnd.randint(1, 3))])]]
+    if rnd.random() < 0.5:
+        main = [['label', 'm0'], ['assign', 'x0', ('inc', 'x0', 1)], ['if', 'x0', 2, 'e0'], ['goto', 'm0'], ['label', 'e0']] + main
+    return number(defs, main)
+
+
 def canonical_multi(defs, main, rnd):
     """one statement per line, program definitions optionally moved to their own included files.
     Returns (files dict name->text, L) with L values (file, line)."""
